@@ -134,6 +134,7 @@ func (c *Client) RebuildTunnels(tunnels []Tunnel) {
 	diff := diffTunnels(c.Configuration.Tunnels, tunnels)
 	c.closeOutdatedProxies(diff...)
 
+	verifPoint("client.rebuild.window")
 	c.Configuration.Tunnels = tunnels
 	if err := c.Configuration.writeFile(); err != nil {
 		c.Logger.Error("Error saving to config file", zap.Error(err))
